@@ -212,6 +212,58 @@ pub fn fresh_seq(args: &[String]) -> i32 {
     }
 }
 
+/// `fresh-conc <file> <threads>`: in this (fresh) process, `threads` threads leave a barrier together
+/// and each runs the calls of the file in order - nothing has been evaluated before, so whatever is
+/// built lazily is built under contention; then the calls run once more on one thread. Prints a JSON
+/// object {"threads": [[outcome, ...], ...], "after": [outcome, ...]}.
+pub fn fresh_conc(args: &[String]) -> i32 {
+    use crate::json::J;
+    use std::sync::{Arc, Barrier};
+    let text = match args.first().map(std::fs::read_to_string) {
+        Some(Ok(t)) => t,
+        _ => return 2,
+    };
+    let threads: usize = args.get(1).and_then(|s| s.parse().ok()).unwrap_or(8);
+    let cases: Arc<Vec<crate::core::Case>> = Arc::new(text.split('\n').filter(|l| !l.is_empty()).filter_map(|l| J::parse(l).ok()).filter_map(|j| crate::core::Case::from_json(&j)).collect());
+    let run_all = |cases: &Vec<crate::core::Case>, y: u64| -> Vec<String> {
+        cases
+            .iter()
+            .map(|c| {
+                let len = c.exprs[0].chars().count();
+                sut::call_with(c.ev, &c.exprs[0], &c.phs[0], sut::c02_budget(len), y).outcome.enc()
+            })
+            .collect()
+    };
+    let barrier = Arc::new(Barrier::new(threads));
+    let mut hs = vec![];
+    for t in 0..threads {
+        let (cases, barrier) = (cases.clone(), barrier.clone());
+        let h = std::thread::Builder::new().stack_size(8 * 1024 * 1024 + 256 * 1024).spawn(move || {
+            sut::install_hook();
+            barrier.wait();
+            run_all(&cases, if t % 2 == 0 { 0 } else { 1 + t as u64 % 5 })
+        });
+        match h {
+            Ok(h) => hs.push(h),
+            Err(_) => return 1,
+        }
+    }
+    let mut per_thread: Vec<J> = vec![];
+    for h in hs {
+        match h.join() {
+            Ok(v) => per_thread.push(J::strs(v)),
+            Err(_) => return 1,
+        }
+    }
+    let cases2 = cases.clone();
+    let after = match std::thread::Builder::new().stack_size(8 * 1024 * 1024 + 256 * 1024).spawn(move || run_all(&cases2, 0)).map(|h| h.join()) {
+        Ok(Ok(v)) => v,
+        _ => return 1,
+    };
+    println!("{}", J::obj().set("threads", J::Arr(per_thread)).set("after", J::strs(after)).to_string());
+    0
+}
+
 /// Write a corpus of hostile calls (JSON lines) for the sanitizer stages: gen-corpus <n> <path> [seed]
 pub fn gen_corpus(args: &[String]) -> i32 {
     use crate::gen::*;
